@@ -488,7 +488,7 @@ package meta
 //@   property C01
 //@   callee (*bbolt.Cursor).Seek
 //@   pureeffect
-//@   defines len(a0) > 0 && a0[0] == metaPrefixGarbage ==> garbageMarkLookedUp()
+//@   defines a0[0] == metaPrefixGarbage ==> garbageMarkLookedUp()
 //@ func deleteMetadata
 //@   property C01
 //@   ensures [missing_entry_still_loses_its_garbage_mark] !haveObject ==> garbageMarkLookedUp()
